@@ -183,6 +183,11 @@ class Ctx:
     def run_case(self, sub, case):
         """Run one concrete case through SUBS[sub]; report a violation; return True if held."""
         fn = self.mod.SUBS[sub]
+        inflight = os.environ.get("VERIF_INFLIGHT")
+        if inflight:
+            with open(inflight, "w") as f:
+                json.dump({"property": self.pid, "sub": sub, "seed": self.seed, "tier": self.tier,
+                           "message": "the interpreter died while running this case", "case": _jsonable(case)}, f)
         try:
             fn(case)
             return True
@@ -203,12 +208,19 @@ class Ctx:
         if shrink:
             phases.append(Phase.shrink)
 
+        inflight = os.environ.get("VERIF_INFLIGHT")
+
         @hypothesis.seed(self.seed * 1000003 + _stable(sub))
         @settings(max_examples=max_examples, database=None, deadline=None, derandomize=False,
                   report_multiple_bugs=False, phases=phases, print_blob=False,
                   suppress_health_check=list(HealthCheck))
         @given(strategy)
         def test(case):
+            if inflight:
+                # journal the case in flight: if compiled code kills the interpreter, the wrapper turns this into the replay file
+                with open(inflight, "w") as f:
+                    json.dump({"property": self.pid, "sub": sub, "seed": self.seed, "tier": self.tier,
+                               "message": "the interpreter died while running this case", "case": _jsonable(case)}, f)
             try:
                 fn(case)
             except Violation as e:
